@@ -53,6 +53,9 @@ type c07Params struct {
 	// Fine: every function entry of a server thread is a scheduling point (state
 	// shared without a synchronisation operation between the conflicting accesses)
 	Fine bool `json:"fine,omitempty"`
+	// LiveDels: the live fence connection must be told of every logged DEL on key k
+	// (explicit or the sweeper's), once each, with the right id, in log order
+	LiveDels bool `json:"live_dels,omitempty"`
 }
 
 func (p c07Params) prop() string {
@@ -280,6 +283,10 @@ func c07Run(job *Job, p c07Params, prefix []int) (out schedOut) {
 			out.Err = err.Error()
 			return
 		}
+		var liveMsgs []string
+		if live != nil {
+			liveMsgs = drainMessages(live)
+		}
 		c0.Close()
 		for _, c := range clis {
 			c.Close()
@@ -348,6 +355,31 @@ func c07Run(job *Job, p c07Params, prefix []int) (out schedOut) {
 					out.Obs = "TWICE " + final
 					return
 				}
+			}
+		}
+		if p.LiveDels {
+			var logged, told []string
+			for rest := img; len(rest) > 0; {
+				v, r2, ok, err := parseRESP(rest)
+				if err != nil || !ok {
+					break
+				}
+				rest = r2
+				if len(v.A) == 3 && strings.EqualFold(v.A[0].S, "del") && v.A[1].S == "k" {
+					logged = append(logged, v.A[2].S)
+				}
+			}
+			for _, m := range liveMsgs {
+				if strings.Contains(m, `"command":"del"`) {
+					id := m[strings.Index(m, `"id":"`)+6:]
+					told = append(told, id[:strings.Index(id, `"`)])
+				}
+			}
+			if strings.Join(logged, ",") != strings.Join(told, ",") {
+				out.VSig = p.prop() + "/live-fence-dels-differ-from-log:" + p.Name
+				out.VDetail = fmt.Sprintf("the log holds DEL k for %v (in this order), the live fence connection was told of the deletion of %v", logged, told)
+				out.Obs = "LIVE " + final
+				return
 			}
 		}
 		// position of each op's (first) write in the log, -1 if not logged
@@ -539,6 +571,9 @@ func c07Scenarios(tier string) []c07Params {
 		S("jdel-get", append(pre, []string{"SET", "k", "j", "STRING", `{"x":1}`}), one("JDEL k j x"), one("GET k j")),
 		{Name: "eval-gets", Pre: pre, Conns: [][][]string{{{"EVAL", scr, "0"}}, two("GET k a", "GET k b")}, Model: map[string][][]string{"0.0": scrModel}},
 		{Name: "set-then-get", Pre: pre, Conns: [][][]string{one("SET k a POINT 3 3"), one("GET k a")}, After: map[int]int{1: 0}},
+		// two objects expiring in one sweep, watched by a live fence connection
+		{Name: "two-expiring-vs-live-fence", Pre: append(append([][]string{}, pre...), w("SET k e EX 1.1 POINT 1 1"), w("SET k f EX 1.1 POINT 1.001 1.001")),
+			Conns: [][][]string{one("GET k e"), one("DEL k a")}, Expire: true, Live: true, LiveDels: true, QuickBound: 1},
 		{Name: "set-live", Pre: pre, Conns: [][][]string{one("SET k a POINT 1.001 1.001")}, Live: true},
 		{Name: "set-del-vs-aofshrink", Pre: pre, Conns: [][][]string{two("SET k a POINT 3 3", "DEL k b"), one("SET k c POINT 4 4")}, Shrink: true, QuickBound: 1},
 		// a write racing with the command that makes the server read-only: once READONLY is answered no write takes effect
